@@ -5,7 +5,7 @@ import itertools
 RULE = ('paths/segments built from a small point alphabet with exact degeneracies (repeated points, zero-length and collinear segments, A,B,A,B and '
         'p0,B,B,B cubics, cusps, loops, coincident control points; distinct points bit-identical or >= 1e-6 extent apart; coordinates up to 1e6) x '
         'flatten / stroke (every join x cap x dashed-undashed, widths 0.05..10, tol 1e-3..1; offsetting of degenerate cubics is exercised through the stroker, which regularises them) / dash / fit (subdivide and optimised; single degenerate segments as sources) / simplify (whole degenerate paths, both levels) / '
-        'nearest / arclen / inv_arclen / winding / to_quads / solvers; SVG: every string over the 18-symbol alphabet to length 3 (quick) / 4 and random strings '
+        'nearest / arclen / inv_arclen / winding / to_quads / solvers; tiny closed quadratics/cubics (end points coincident or 1e-9 apart, control arms zero, 1e-9..2e-6 or ordinary) x stroke (undashed) / simplify / flatten; SVG: every string over the 18-symbol alphabet to length 3 (quick) / 4 and random strings '
         'to 64 bytes. Required on the implementation (built with the add-only work counters, --cfg kurbo_verif): no panic, only finite numbers, work '
         'counter <= budget (1e7 loop iterations; a loop exceeding 2e7 is aborted by the hook and reported). The SVG part is additionally a theorem '
         '(from_svg_total: the model parser, bit-identical to the crate, never reaches the panic state). non-trivial = distinct op line')
@@ -317,6 +317,23 @@ def generate(rng, tier):
             pre = f'C {H(*q1)} {H(*q2)} {H(*p0)} '
         path = f'M {H(*start)} {pre}C {H(*a)} {H(*b)} {H(*p0)} C {H(*c1)} {H(*c2)} {H(*e)}'
         yield total(f'path.simplify {H(10.0 ** rng.uniform(-3, 0))} {rng.randint(0, 1)} {path}', 'simplify-smooth-loop')
+    # tiny closed curves: end points coincide (or are 1e-9 apart), control arms zero / 1e-9 .. 2e-6 (at or below the EPS = 1e-12 threshold of
+    # PathSeg::tangents on the squared length) / ordinary.  tangents must give the stroker a non-zero direction unless all points coincide
+    # (fix "stroking a curve whose end points coincide and whose control points are within 1e-6 of them gives NaN"); undashed, every join x cap
+    from .c18 import tiny_closed_segment
+    for k in range(n * 3):
+        kind, pts = tiny_closed_segment(rng)
+        body = f'{kind} ' + ' '.join(H(*q) for q in pts[1:])
+        lead = rng.choice(['', '', f'L {H(pts[0][0] + 1.0, pts[0][1])} L {H(*pts[0])} '])
+        tail_ = rng.choice(['', '', f' L {H(pts[-1][0], pts[-1][1] + 1.0)}', ' Z'])
+        start = pts[0] if not lead else (pts[0][0], pts[0][1] - 1.0)
+        path = f'M {H(*start)} {lead}{body}{tail_}'
+        w = rng.choice([0.05, 1.0, 2.0, 10.0])
+        tolc = 10.0 ** rng.uniform(-3, 0)
+        yield total(f'path.stroke {H(w)} {k % 3} {(k // 3) % 3} {H(4.0)} {H(0.0)} 0 {H(tolc)} {path}', 'stroke-tiny-closed')
+        if k % 3 == 0:
+            yield total(f'path.simplify {H(tolc)} {k % 2} {path}', 'simplify-tiny-closed')
+            yield total(f'path.flatten {H(tolc)} {path}', 'flatten-tiny-closed')
     # solvers on degenerate coefficient tuples
     for co in itertools.product([0.0, 1.0, -2.0, 1e-6, 1e6], repeat=3):
         yield total(f'solve.quadratic {H(*co)}', 'solvers')
